@@ -36,7 +36,9 @@ def text_value(rng):
     if m == 2:
         return rng.choice(["true", "false", "NULL", "on"])
     if m == 3:
-        return "line one\n      line two\n   three"
+        # multi-line text: indented lines, empty and white-space-only lines inside, CRLF, tabs
+        return rng.choice(["line one\n      line two\n   three", "para one\n\n   para two", "a\n   \n\n  b\n c", "x\r\n  y\r\n\r\nz",
+                           "\tfirst\n\t\n\tlast", "1\n2", "head\n\n\n\ntail"])
     if m == 4:
         return rng.choice(["on:off", "xs:thing", "n:1", "a < b", "x & y", "xs:", "key: value"])
     if m == 5:
